@@ -30,7 +30,8 @@ MODULES = {
     "adsr": {"trace_spec": "Trace_Adsr", "trace_cfg": "Trace_Adsr.cfg",
              "graphs": {"fs128": {"module": "MC_Adsr", "cfg": "Graph_Adsr.cfg", "target": "adsr"}}},
     "quant": {"trace_spec": "Trace_Quantizer", "trace_cfg": "Trace_Quantizer.cfg",
-              "graphs": {"real": {"module": "MC_Quantizer", "cfg": "Graph_Quantizer.cfg", "target": "quant"}}},
+              "graphs": {"real": {"module": "MC_Quantizer", "cfg": "Graph_Quantizer.cfg", "target": "quant"},
+                         "realbig": {"module": "MC_Quantizer", "cfg": "Graph_Quantizer_big.cfg", "target": "quant"}}},
     "ribbon": {
         "trace_spec": "Trace_Ribbon", "trace_cfg": "Trace_Ribbon.cfg",
         "graphs": {
@@ -133,7 +134,7 @@ PROPS.update({
 _Q_MC = [("quant", "MC_Quantizer", "MC_Quantizer.cfg", QT), ("quant-big", "MC_Quantizer", "MC_Quantizer_big.cfg", T)]
 _Q_SWEEP = ("quant", "sweep", QT, {"thorough": 16})
 # every transition of the real-size quantizer graph (31 scales x 170 inputs x allow / forbid histories)
-_Q_GR = [("quant", "real", QT)]
+_Q_GR = [("quant", "real", QT), ("quant", "realbig", T)]   # thorough: 2 209 states, 477 144 transitions
 PROPS.update({
     "C07": {"module": "quant", "mc": _Q_MC, "graphs": _Q_GR, "traces": [("quant", "hyst", QT), _Q_SWEEP, ("quant", "boundaries", QT)]},
     "C08": {"module": "quant", "mc": _Q_MC, "graphs": _Q_GR, "traces": [_Q_SWEEP, ("quant", "boundaries", QT), ("quant", "hyst", QT)],
